@@ -23,10 +23,27 @@ package types
 //@   ensures valid: err == nil ==> assetsOK(p.AssetParams)
 //@ end
 
-// Genesis validation (assumed contract for the part InitGenesis relies on: the ids of the listed contracts are distinct)
-//@ func ValidateGenesis(data)
-//@   property C12
+// Field validators called by genesis validation: filters whose result is not relied on (trusted, nothing assumed).
+//@ func HTLC.Validate()
+//@   property C04, C12
 //@   trusted
 //@   returns err
+//@ end
+//@ func AssetSupply.Validate()
+//@   property C04, C12
+//@   trusted
+//@   returns err
+//@ end
+
+// Genesis validation: the ids of the listed contracts are pairwise distinct - wherever in the list they stand (C04, C12:
+// InitGenesis files each entry under its id and counts its coins once).
+//@ func ValidateGenesis(data)
+//@   property C04, C12
+//@   returns err
+//@   invariant #1 idx:  rangeindex >= 0 - 1 && rangeindex < len(data.Htlcs)
+//@   invariant #1 seen: forall j:Int :: 0 <= j && j <= rangeindex ==> has(ids, data.Htlcs[j].Id) && get(ids, data.Htlcs[j].Id)
+//@   invariant #1 uniq: forall a:Int :: forall b:Int :: 0 <= a && a < b && b <= rangeindex ==> data.Htlcs[a].Id != data.Htlcs[b].Id
+//@   invariant #2 idx:  rangeindex >= 0 - 1
+//@   invariant #2 uniq: forall a:Int :: forall b:Int :: 0 <= a && a < b && b < len(data.Htlcs) ==> data.Htlcs[a].Id != data.Htlcs[b].Id
 //@   ensures unique_ids: err == nil ==> (forall a:Int :: forall b:Int :: 0 <= a && a < b && b < len(data.Htlcs) ==> data.Htlcs[a].Id != data.Htlcs[b].Id)
 //@ end
